@@ -38,3 +38,33 @@ Proof.
   - destruct (Z.eqb_spec x y) as [->|]; [rewrite E; reflexivity | now rewrite orb_false_r].
   - rewrite zmem_app. cbn. now rewrite orb_false_r.
 Qed.
+
+(* ---- additions for scoring/main.py ---- *)
+(* a comprehension whose condition never raises is a filter *)
+Lemma res_filter_pure {A : Type} (p : A -> result bool) (q : A -> bool) :
+  (forall a, p a = Ok (q a)) -> forall l, res_filter p l = Ok (filter q l).
+Proof.
+  intros H l; induction l as [|a l IH]; cbn [res_filter filter]; [reflexivity|].
+  rewrite H, IH. cbn [res_bind]. destruct (q a); reflexivity.
+Qed.
+
+Lemma dict_set_fresh {V : Type} (d : list (Z * V)) k v :
+  ~ In k (map fst d) -> dict_set d k v = d ++ [(k, v)].
+Proof.
+  induction d as [|[k' v'] d IH]; intros H; cbn [dict_set app]; [reflexivity|].
+  cbn [map fst In] in H. destruct (Z.eqb_spec k' k) as [->|_]; [exfalso; apply H; now left|].
+  rewrite IH by (intros X; apply H; now right). reflexivity.
+Qed.
+
+(* a dict built key by key from distinct keys lists them in order *)
+Lemma fold_dict_set_distinct {A V : Type} (key : A -> Z) (val : A -> V) :
+  forall l d, NoDup (map fst d ++ map key l) ->
+  fold_left (fun d x => dict_set d (key x) (val x)) l d = d ++ map (fun x => (key x, val x)) l.
+Proof.
+  induction l as [|a l IH]; intros d H; cbn [fold_left map]; [now rewrite app_nil_r|].
+  cbn [map] in H. rewrite dict_set_fresh.
+  - rewrite IH.
+    + rewrite <- app_assoc. reflexivity.
+    + rewrite map_app. cbn [map fst]. rewrite <- app_assoc. exact H.
+  - apply NoDup_remove_2 in H. intros X. apply H. apply in_or_app. now left.
+Qed.
